@@ -5,6 +5,7 @@ import (
 	"go/constant"
 	"go/token"
 	"go/types"
+	"os"
 	"regexp"
 	"strconv"
 	"strings"
@@ -319,6 +320,9 @@ func (sp *safetyPass) call(st *State, in ssa.Instruction, cc *ssa.CallCommon) {
 						proved = true // k < a, k >= 0
 					}
 				}
+			}
+			if !proved {
+				proved = sp.capturedPositive(a)
 			}
 			if proved {
 				sp.add("ARGPOS", "call", desc, in, Discharged, "argument > 0 established on this path", st)
@@ -850,6 +854,31 @@ func constBoolReturn(fn *ssa.Function) (bool, bool) {
 	return *val, true
 }
 
+// boxedAs: the interface value v holds a value of concrete type T, or - when T
+// is itself an interface - a value whose static type implements T (a
+// constructor's result; that the constructor does not return nil is assumed).
+func boxedAs(v ssa.Value, T types.Type) bool {
+	for {
+		switch x := v.(type) {
+		case *ssa.MakeInterface:
+			if _, isIface := T.Underlying().(*types.Interface); isIface {
+				return types.AssignableTo(x.X.Type(), T)
+			}
+			return types.Identical(x.X.Type(), T)
+		case *ssa.ChangeInterface:
+			v = x.X
+			continue
+		}
+		if _, isIface := T.Underlying().(*types.Interface); isIface {
+			if _, isConst := v.(*ssa.Const); isConst {
+				return false
+			}
+			return types.AssignableTo(v.Type(), T)
+		}
+		return false
+	}
+}
+
 // poolTyped: every value put into the pool and the pool's New result have type T.
 func poolTyped(p *Program, pool ssa.Value, T types.Type) (bool, string) {
 	g, ok := pool.(*ssa.Global)
@@ -865,8 +894,7 @@ func poolTyped(p *Program, pool ssa.Value, T types.Type) (bool, string) {
 					continue
 				}
 				if f := call.Call.StaticCallee(); f != nil && f.String() == "(*sync.Pool).Put" && call.Call.Args[0] == g {
-					mi, ok := call.Call.Args[1].(*ssa.MakeInterface)
-					if !ok || !types.Identical(mi.X.Type(), T) {
+					if !boxedAs(call.Call.Args[1], T) {
 						return false, fmt.Sprintf("Put at %s stores a value that is not %s", p.InstrPos(in), shortType(T))
 					}
 					n++
@@ -902,8 +930,7 @@ func poolTyped(p *Program, pool ssa.Value, T types.Type) (bool, string) {
 				}
 				for _, b2 := range nf.Blocks {
 					if ret, ok := b2.Instrs[len(b2.Instrs)-1].(*ssa.Return); ok {
-						mi, ok := ret.Results[0].(*ssa.MakeInterface)
-						if !ok || !types.Identical(mi.X.Type(), T) {
+						if !boxedAs(ret.Results[0], T) {
 							return false, "pool New returns a value that is not " + shortType(T)
 						}
 						newOK = true
@@ -1586,4 +1613,82 @@ func boundsException(key string) (string, bool) {
 		}
 	}
 	return "", false
+}
+
+// positiveIn: a fact of the state establishes canonical value xs > 0.
+func positiveIn(st *State, xs string) bool {
+	for _, f := range st.live {
+		if f.Kind == "lt" && f.X == xs && !f.Val {
+			if k, err := strconv.ParseInt(f.Y, 10, 64); err == nil && k >= 1 {
+				return true
+			}
+		}
+		if f.Kind == "lt" && f.Y == xs && f.Val {
+			if k, err := strconv.ParseInt(f.X, 10, 64); err == nil && k >= 0 {
+				return true
+			}
+		}
+	}
+	return false
+}
+
+// capturedPositive: v is (a load of) a variable captured by the closure under
+// analysis, and the enclosing function has established that it is > 0 in
+// every abstract state in which it creates the closure, and never assigns it
+// afterwards.
+func (sp *safetyPass) capturedPositive(v ssa.Value) bool {
+	ld, ok := v.(*ssa.UnOp)
+	if !ok || ld.Op != token.MUL {
+		return false
+	}
+	fv, ok := ld.X.(*ssa.FreeVar)
+	if !ok || fv.Parent().Parent() == nil {
+		return false
+	}
+	cl, parent := fv.Parent(), fv.Parent().Parent()
+	idx := -1
+	for j, q := range cl.FreeVars {
+		if q == fv {
+			idx = j
+		}
+	}
+	ss := statesAt(sp.c, parent, func(in ssa.Instruction) bool {
+		mc, ok := in.(*ssa.MakeClosure)
+		return ok && mc.Fn == ssa.Value(cl)
+	}, nil)
+	n := 0
+	for in, sts := range ss.Sites {
+		mc := in.(*ssa.MakeClosure)
+		if idx < 0 || idx >= len(mc.Bindings) {
+			return false
+		}
+		al, ok := mc.Bindings[idx].(*ssa.Alloc)
+		if !ok {
+			return false
+		}
+		// single assignment before the closure exists: every store precedes the MakeClosure in its block order
+		for _, r := range *al.Referrers() {
+			if sto, ok := r.(*ssa.Store); ok && sto.Addr == ssa.Value(al) {
+				if sto.Parent() != parent {
+					return false // the closure (or another one) writes it
+				}
+			}
+		}
+		for _, st := range sts {
+			n++
+			val, ok := st.ReadLocal("new@" + ss.Ex.vname(al))
+			if os.Getenv("CDLINT_DEBUG_ARGPOS") != "" {
+				fmt.Fprintf(os.Stderr, "ARGPOS captured %s val=%q ok=%v\n", al.Comment, val, ok)
+				for _, f := range st.live {
+					if f.Kind == "lt" {
+						fmt.Fprintf(os.Stderr, "   lt %q < %q = %v\n", f.X, f.Y, f.Val)
+					}
+				}
+			}
+			if !(ok && positiveIn(st, val)) && !positiveIn(st, "new@"+ss.Ex.vname(al)) {
+				return false
+			}
+		}
+	}
+	return n > 0
 }
